@@ -4,7 +4,8 @@
 # /verif/seeded/<PID>_<i>/, then applies it to /repo, runs the checks, and reverts /repo.
 PID=$1; I=$2; shift 2; OTHERS="$@"
 WT=/tmp/wt_$PID
-D=/verif/seeded/${PID}_$I
+J=${AS:-$I}   # store under another index (round 2: AS=3 / AS=4)
+D=/verif/seeded/${PID}_$J
 set -u
 cd $WT || exit 2
 git checkout -q -- magpylib tests 2>/dev/null
@@ -29,6 +30,6 @@ done
 git -C /repo checkout -- .
 git -C /repo status --short | head -3
 cat > $D/meta.json <<EOM
-{"property": "$PID", "seed": $I, "demo_exit_clean": $C, "demo_exit_with_change": $M, "test_suite_with_change": "$T",
+{"property": "$PID", "seed": $J, "demo_exit_clean": $C, "demo_exit_with_change": $M, "test_suite_with_change": "$T",
  "checks_run_against_it": "$RES"}
 EOM
